@@ -697,6 +697,7 @@ func c14EnumOracle() string {
 			bad = append(bad, n+": exported function returning *Statement in "+dir+" that harness/props/c14_registry.go does not list (regenerate it with `api2ir -registry`); it has no *Statement method of that name: "+fmt.Sprint(!cons[n]))
 		}
 	}
+	bad = append(bad, c14FileGoString()...)
 	sort.Strings(bad)
 	if len(bad) > 0 {
 		return "API: " + strings.Join(bad, "; ")
@@ -1065,4 +1066,41 @@ func (c14) Regressions() []*Case {
 		out = append(out, c)
 	}
 	return out
+}
+
+
+// c14FileGoString: File.GoString is File.Render into a buffer, panicking with the error when
+// rendering fails (clause "GoString, Render ... agree", for the File entry point).
+func c14FileGoString() []string {
+	var bad []string
+	mk := func(valid bool, noformat bool) *jen.File {
+		f := jen.NewFilePathName("a.b/c", "c")
+		f.NoFormat = noformat
+		f.HeaderComment("h")
+		f.ImportAlias("x.y/z", "zz")
+		f.Func().Id("f").Params().Block(jen.Qual("x.y/z", "A").Call(jen.Lit(1), jen.Qual("fmt", "Sprint").Call()))
+		if !valid {
+			f.Add(jen.Op("+").Op("+"))
+		}
+		return f
+	}
+	for _, valid := range []bool{true, false} {
+		for _, nf := range []bool{false, true} {
+			gs := c14Guard(func() c14Res { return c14Res{"ok", mk(valid, nf).GoString()} })
+			rd := c14Guard(func() c14Res {
+				var b bytes.Buffer
+				if err := mk(valid, nf).Render(&b); err != nil {
+					return c14Res{"err", err.Error()}
+				}
+				return c14Res{"ok", b.String()}
+			})
+			switch {
+			case rd.Kind == "ok" && gs != rd:
+				bad = append(bad, fmt.Sprintf("File.GoString and File.Render differ (valid=%v noformat=%v): %v vs %v", valid, nf, gs, rd))
+			case rd.Kind != "ok" && (gs.Kind != "panic" || gs.Out != rd.Out):
+				bad = append(bad, fmt.Sprintf("File.Render gives %v but File.GoString gives %v", rd, gs))
+			}
+		}
+	}
+	return bad
 }
